@@ -48,6 +48,8 @@ def run(P, rep, tier):
     rep.attempt(r5_mergeable_shapes, P, rep, ctx)
     rep.attempt(r6_partial_fields, P, rep, ctx)
     rep.attempt(r7_harvest_order, P, rep, ctx)
+    rep.attempt(r8_partial_type_hints, P, rep, ctx)
+    rep.attempt(r9_partial_class_identity, P, rep, ctx)
     rep.floor("C14.R1", 6)
     rep.floor("C14.R2", 6)
     rep.floor("C14.R3", 3)
@@ -59,6 +61,67 @@ def run(P, rep, tier):
         from .pinned import refine
 
         refine(P, rep, ctx, "C14")
+
+
+def r8_partial_type_hints(P, rep, ctx):
+    """Partial field types are rebuilt with util.typing.make_typehint(h, *new_args).  For an Optional hint all rebuilt
+    members are kept (plus NoneType): Optional[Union[A, B]] is Union[A, B, None], three members -- keeping only the first
+    makes the partial reject or drop values of the other member types."""
+    fi = P.func("util.typing.make_typehint")
+    f = F(ctx, fi)
+    va = fi.node.args.vararg.arg if fi.node.args.vararg else None
+    if va is None:
+        raise AnalysisError("C14.R8: make_typehint has no *args")
+    opt = f.tests("is_optional(__h)")
+    if not opt:
+        raise AnalysisError("C14.R8: is_optional test of make_typehint not found")
+    n = 0
+    for i, c, b in f.call_sites("__h.copy_with(__a)"):
+        # value of the argument on the Optional branch, per path
+        try:
+            paths = f.value_paths()
+        except ValueError:
+            raise AnalysisError("C14.R8: make_typehint has loops")
+        for lits, v, n_ in paths:
+            d = dict(lits)
+            if not any(k.startswith("is_optional(") and tv for k, tv in d.items()):
+                continue
+            m = MM.match("__h.copy_with(__a)", v)
+            if m is None:
+                continue
+            n += 1
+            a = MM.canon_collections(m["__a"])
+            txt = norm(a)
+            whole = any(isinstance(x, ast.Starred) and norm(x.value) == va for x in ast.walk(a)) or f"{va} +" in txt or txt.startswith(f"{va}") and "+" in txt or txt == "args_"
+            partial = any(isinstance(x, ast.Subscript) and norm(x.value) == va for x in ast.walk(a)) and not whole
+            rep.check(not partial, "C14.R8", fi.qual, "an Optional hint is rebuilt from all new members", fi.loc(), construct=f"make_typehint optional args {txt[:60]}",
+                      message=f"make_typehint rebuilds an Optional hint from `{txt[:80]}`: only one of the rebuilt members is kept, so the partial of a field typed Optional[Union[A, B]] no longer accepts B values (they are dropped with ignore_invalid or rejected)")
+        break
+    if n == 0:
+        rep.info("C14.R8: Optional branch of make_typehint is spelled in a way the rule does not evaluate (no verdict)")
+
+
+def r9_partial_class_identity(P, rep, ctx):
+    """Nested partial values merge recursively only when their partial classes are related (issubclass), and a partial class
+    is created once per (factory, model) and remembered in the module-level tables.  Entries are never removed: a model whose
+    entry was evicted gets a second, unrelated partial class, and values created before and after no longer merge."""
+    n = 0
+    for fi in P.functions.values():
+        if fi.module.name != "schema.partial":
+            continue
+        for x in walk_local(fi.node):
+            bad = None
+            if isinstance(x, ast.Delete):
+                for t in x.targets:
+                    if any(isinstance(y, ast.Name) and y.id in ("_partials", "_forwardrefs") for y in ast.walk(t)):
+                        bad = x
+            if isinstance(x, ast.Call) and isinstance(x.func, ast.Attribute) and x.func.attr in ("pop", "popitem", "clear") and any(isinstance(y, ast.Name) and y.id in ("_partials", "_forwardrefs") for y in ast.walk(x.func.value)):
+                bad = x
+            if isinstance(x, ast.Name) and x.id in ("_partials", "_forwardrefs"):
+                n += 1
+            if bad is not None:
+                rep.fail("C14.R9", fi.qual, norm(bad)[:80], f"`{norm(bad)[:80]}` removes a remembered partial class: the model gets a new, unrelated partial class on its next use and nested values of the two generations are overwritten / refused instead of merged field by field", fi.loc(bad))
+    rep.check(n >= 4, "C14.R9", "schema.partial", "the partial class tables are only ever added to", P.module("schema.partial").relpath, construct="_partials / _forwardrefs uses", message="the module-level partial tables are no longer used: rule has nothing to check")
 
 
 # ------------------------------------------------------------------------------------------- R1
